@@ -762,8 +762,13 @@ func boundedRecursion(c *an.Ctx, fns []*ssa.Function, scope map[*ssa.Function][]
 	for _, f := range fns {
 		inScope[f] = true
 	}
-	// recursive call sites: caller can be reached again from callee
-	n := 0
+	// classify every in-scope call edge that lies on a cycle
+	type edge struct {
+		e       an.CallEdge
+		guarded bool
+		why     string
+	}
+	var cyc []edge
 	for _, fn := range fns {
 		for _, e := range p.OutEdges(fn) {
 			if !inScope[e.Callee] {
@@ -773,10 +778,8 @@ func boundedRecursion(c *an.Ctx, fns []*ssa.Function, scope map[*ssa.Function][]
 			if _, ok := back[fn]; !ok {
 				continue
 			}
-			n++
-			key := fmt.Sprintf("%s:recursion(%s)", an.Short(fn), an.Short(e.Callee))
+			ed := edge{e: e}
 			// (1) visited-set guard on a key passed on
-			guarded := false
 			for _, g := range an.Guards(e.Site.Block()) {
 				lk, ok := g.Cond.(*ssa.Lookup)
 				if !ok {
@@ -785,17 +788,46 @@ func boundedRecursion(c *an.Ctx, fns []*ssa.Function, scope map[*ssa.Function][]
 				if _, isMap := lk.X.Type().Underlying().(*types.Map); !isMap {
 					continue
 				}
-				for _, a := range e.Site.Common().Args {
-					if an.SameValue(lk.Index, a) || an.Prov(lk.Index) == an.Prov(a) {
-						if !g.Outcome {
-							guarded = true
+				for ai, a := range e.Site.Common().Args {
+					if (an.SameValue(lk.Index, a) || an.Prov(lk.Index) == an.Prov(a)) && !g.Outcome {
+						// the guard bounds the recursion only if the key gets marked: by the callee for
+						// its parameter (before it recurses), or by the caller before the call
+						marked := false
+						callee := e.Callee
+						pi := ai
+						if e.Site.Common().IsInvoke() {
+							pi = ai + 1
+						}
+						if pi < len(callee.Params) {
+							an.EachInstr(callee, func(in ssa.Instruction) {
+								if mu, ok := in.(*ssa.MapUpdate); ok && an.FieldProv(mu.Map) == an.FieldProv(lk.X) && an.SameValue(mu.Key, callee.Params[pi]) {
+									okDom := true
+									for _, oe := range p.OutEdges(callee) {
+										if inScope[oe.Callee] && !an.Dominates(mu, oe.Site) {
+											if back := p.Reach([]*ssa.Function{oe.Callee}, func(x an.CallEdge) bool { return inScope[x.Callee] }); back[callee] != nil || oe.Callee == callee {
+												okDom = false
+											}
+										}
+									}
+									if okDom {
+										marked = true
+									}
+								}
+							})
+						}
+						an.EachInstr(fn, func(in ssa.Instruction) {
+							if mu, ok := in.(*ssa.MapUpdate); ok && an.FieldProv(mu.Map) == an.FieldProv(lk.X) && an.SameValue(mu.Key, a) && an.Dominates(mu, e.Site) {
+								marked = true
+							}
+						})
+						if marked {
+							ed.guarded, ed.why = true, "guarded by a visited set on the key passed on, which the callee marks before it recurses"
 						}
 					}
 				}
 			}
-			// (2) the callee itself refuses a revisit: its entry block looks its argument up in a
-			// mark set it was given, and the recursive call is preceded by marking that argument
-			if !guarded {
+			// (2) the callee refuses a revisit at its entry and marks before recursing
+			if !ed.guarded && e.Caller == e.Callee {
 				callee := e.Callee
 				var entryLookup *ssa.Lookup
 				for _, in := range callee.Blocks[0].Instrs {
@@ -809,36 +841,66 @@ func boundedRecursion(c *an.Ctx, fns []*ssa.Function, scope map[*ssa.Function][]
 						}
 					}
 				}
-				if entryLookup != nil && e.Caller == callee {
+				if entryLookup != nil {
 					an.EachInstr(callee, func(in ssa.Instruction) {
 						if mu, ok := in.(*ssa.MapUpdate); ok && an.SameValue(mu.Map, entryLookup.X) && an.SameValue(mu.Key, entryLookup.Index) && an.Dominates(mu, e.Site) {
-							guarded = true
+							ed.guarded, ed.why = true, "the callee refuses an argument it has marked, and marks before recursing"
 						}
 					})
 				}
 			}
 			// (3) recursion over included pipelines: acyclic for every accepted configuration by C18.5
-			if !guarded {
-				overPipelines := false
+			if !ed.guarded {
 				for _, a := range e.Site.Common().Args {
-					if an.FieldProv(a) == "Stage.Pipeline" {
-						overPipelines = true
+					if an.FieldProv(a) == "Stage.Pipeline" && inclusionWalkerExists(c) {
+						ed.guarded, ed.why = true, "recursion over included pipelines, which the inclusion check (C18.5) makes acyclic for every configuration that loads"
 					}
 				}
-				if overPipelines && inclusionWalkerExists(c) {
-					c.OK(rule, key, e.Site.Pos(), "recursion over included pipelines, which the inclusion check (C18.5) makes acyclic for every configuration that loads")
-					continue
-				}
 			}
-			if guarded {
-				c.OK(rule, key, e.Site.Pos(), "guarded by a visited set on the key passed on")
-			} else {
-				c.Bad(rule, key, e.Site.Pos(), "%s calls %s, which can call it back, without a visited-set guard on what it passes on: a structure that refers back to itself (an import cycle, here through %s) makes loading recurse until the stack overflows", an.Short(fn), an.Short(e.Callee), an.Short(e.Callee))
-			}
+			cyc = append(cyc, ed)
 		}
 	}
-	if n == 0 {
+	if len(cyc) == 0 {
 		c.Und(rule, "load-scope:recursion", token.NoPos, "no recursive cycle found in the load scope (the import loader is expected to recurse)")
+		return
+	}
+	// a cycle is bounded when it passes at least one guarded edge: drop the guarded edges and
+	// look for a cycle made of unguarded ones only
+	succ := map[*ssa.Function][]edge{}
+	for _, ed := range cyc {
+		if !ed.guarded {
+			succ[ed.e.Caller] = append(succ[ed.e.Caller], ed)
+		}
+	}
+	reachUnguarded := func(from, to *ssa.Function) bool {
+		seen := map[*ssa.Function]bool{}
+		work := []*ssa.Function{from}
+		for len(work) > 0 {
+			f := work[len(work)-1]
+			work = work[:len(work)-1]
+			for _, ed := range succ[f] {
+				if ed.e.Callee == to {
+					return true
+				}
+				if !seen[ed.e.Callee] {
+					seen[ed.e.Callee] = true
+					work = append(work, ed.e.Callee)
+				}
+			}
+		}
+		return false
+	}
+	for _, ed := range cyc {
+		key := fmt.Sprintf("%s:recursion(%s)", an.Short(ed.e.Caller), an.Short(ed.e.Callee))
+		if ed.guarded {
+			c.OK(rule, key, ed.e.Site.Pos(), "%s", ed.why)
+			continue
+		}
+		if ed.e.Callee == ed.e.Caller || reachUnguarded(ed.e.Callee, ed.e.Caller) {
+			c.Bad(rule, key, ed.e.Site.Pos(), "%s calls %s on a cycle of calls none of which is guarded by a visited set on what it passes on: a structure that refers back to itself (an import cycle) makes loading recurse until the stack overflows", an.Short(ed.e.Caller), an.Short(ed.e.Callee))
+		} else {
+			c.OK(rule, key, ed.e.Site.Pos(), "every cycle through this call passes a guarded call")
+		}
 	}
 }
 
@@ -851,26 +913,48 @@ func inclusionWalkerExists(c *an.Ctx) bool {
 	if bfd == nil {
 		return false
 	}
-	for _, fn := range p.Funcs {
-		if !inPkgs("internal/config")(fn) {
-			continue
-		}
-		reads := false
+	reach := p.Reach([]*ssa.Function{bfd}, func(e an.CallEdge) bool { return an.InModule(e.Callee) && inPkgs("internal/config")(e.Callee) })
+	for fn := range reach {
+		reads, rec := false, false
 		an.EachInstr(fn, func(in ssa.Instruction) {
 			if fa, ok := in.(*ssa.FieldAddr); ok && an.TypeField(fa) == "Stage.Pipeline" {
 				reads = true
 			}
 		})
-		if !reads {
+		for _, s := range p.CallSitesOf(fn) {
+			if s.Parent() == fn {
+				rec = true
+			}
+		}
+		if !reads || !rec {
 			continue
 		}
-		for _, s := range p.CallSitesOf(fn) {
-			if s.Parent() == bfd {
-				f := p.ErrFate(s, noReturn)
-				if f.Kind == "propagated" || f.Kind == "converted" {
-					return true
+		// its error travels up to buildFromDefinition
+		ok := true
+		cur := fn
+		for hops := 0; cur != bfd && hops < 4; hops++ {
+			var next *ssa.Function
+			for _, s := range p.CallSitesOf(cur) {
+				if s.Parent() == cur {
+					continue
 				}
+				if _, in := reach[s.Parent()]; !in {
+					continue
+				}
+				f := p.ErrFate(s, noReturn)
+				if f.Kind != "propagated" && f.Kind != "converted" {
+					ok = false
+				}
+				next = s.Parent()
 			}
+			if next == nil {
+				ok = false
+				break
+			}
+			cur = next
+		}
+		if ok && cur == bfd {
+			return true
 		}
 	}
 	return false
